@@ -8,6 +8,7 @@ import (
 	"math"
 	"math/big"
 	"os"
+	"reflect"
 	"strconv"
 	"strings"
 
@@ -38,8 +39,8 @@ type numObs struct {
 // exact values of the symbolic points, plus neighbours inside the same class (decimal text, parsed exactly)
 var pointValues = map[string][]string{
 	"zero":      {"0"},
-	"one":       {"1", "2", "41", "1000", "010", "00123", "+7", "0x10" /* hex text is NOT a decimal string: expected issue, see concRep */},
-	"minusOne":  {"-1", "-7", "-32768", "-0042"},
+	"one":       {"1", "2", "41", "1000", "10", "100", "2000000000", "010", "00123", "+7", "0x10" /* hex text is NOT a decimal string: expected issue, see concRep */},
+	"minusOne":  {"-1", "-7", "-32768", "-0042", "-20", "-1000000"},
 	"half":      {"0.5", "0.25", "3.5", "1024.75"},
 	"minusHalf": {"-0.5", "-0.75", "-2.5", "-99.25"},
 	"big7.75":   {"7.75", "123456.5", "-65536.125"},
@@ -91,6 +92,22 @@ func exact(s string) (*big.Float, float64, bool) {
 func concRep(rep, s string) (any, bool) {
 	bf, f64, fin := exact(s)
 	switch rep {
+	case "ints", "int32s", "int64s", "float64s":
+		v, ok := concRep(strings.TrimSuffix(rep, "s"), s)
+		if !ok {
+			return nil, false
+		}
+		sl := reflect.MakeSlice(reflect.SliceOf(reflect.TypeOf(v)), 1, 1)
+		sl.Index(0).Set(reflect.ValueOf(v))
+		return sl.Interface(), true
+	case "zfstr":
+		if !fin || !bf.IsInt() || strings.ContainsAny(s, ".x") {
+			return nil, false
+		}
+		if len(s)%2 == 0 {
+			return s + ".00", true
+		}
+		return s + ".0", true
 	case "int", "int64", "int32":
 		if !fin || !bf.IsInt() {
 			return nil, false
@@ -220,6 +237,9 @@ func classify(input string, issues z.ZogIssueList, got any, untouched bool) (str
 const numSentinel = 77
 
 func runNum(dest string, data any) (z.ZogIssueList, any, bool) {
+	if reflect.TypeOf(data).Kind() == reflect.Slice {
+		return runNumSlice(dest, data)
+	}
 	switch dest {
 	case "Int":
 		d := numSentinel
@@ -241,6 +261,58 @@ func runNum(dest string, data any) (z.ZogIssueList, any, bool) {
 		d := float32(numSentinel)
 		is := z.Float32().Parse(data, &d)
 		return is, d, d == numSentinel
+	}
+	panic(dest)
+}
+
+// a one-element typed slice into Slice(<numeric schema>): the outcome of the element. An element that was never written is
+// the zero value of a fresh slice; a success must leave exactly one element.
+func runNumSlice(dest string, data any) (z.ZogIssueList, any, bool) {
+	flat := func(m z.ZogIssueMap) z.ZogIssueList {
+		out := z.ZogIssueList{}
+		for k, v := range m {
+			if k != "$first" {
+				out = append(out, v...)
+			}
+		}
+		return out
+	}
+	switch dest {
+	case "Int":
+		var d []int
+		is := flat(z.Slice(z.Int()).Parse(data, &d))
+		if len(d) != 1 {
+			return is, fmt.Sprintf("len=%d", len(d)), len(d) == 0
+		}
+		return is, d[0], d[0] == 0
+	case "Int64":
+		var d []int64
+		is := flat(z.Slice(z.Int64()).Parse(data, &d))
+		if len(d) != 1 {
+			return is, fmt.Sprintf("len=%d", len(d)), len(d) == 0
+		}
+		return is, d[0], d[0] == 0
+	case "Int32":
+		var d []int32
+		is := flat(z.Slice(z.Int32()).Parse(data, &d))
+		if len(d) != 1 {
+			return is, fmt.Sprintf("len=%d", len(d)), len(d) == 0
+		}
+		return is, d[0], d[0] == 0
+	case "Float64":
+		var d []float64
+		is := flat(z.Slice(z.Float64()).Parse(data, &d))
+		if len(d) != 1 {
+			return is, fmt.Sprintf("len=%d", len(d)), len(d) == 0
+		}
+		return is, d[0], d[0] == 0
+	case "Float32":
+		var d []float32
+		is := flat(z.Slice(z.Float32()).Parse(data, &d))
+		if len(d) != 1 {
+			return is, fmt.Sprintf("len=%d", len(d)), len(d) == 0
+		}
+		return is, d[0], d[0] == 0
 	}
 	panic(dest)
 }
